@@ -6,6 +6,7 @@ import (
 	"io"
 	"net"
 	"os"
+	"sync"
 	"sync/atomic"
 	"syscall"
 	"time"
@@ -1412,17 +1413,27 @@ type DeadlineCtx struct {
 	state int32
 	// after: functions registered through AfterFunc (standard contexts derived
 	// from this one register their cancellation here)
+	// (unobserved accesses, like every field here; registration and firing pass
+	// through afterMu[muIdx], an ordinary mutex in static memory that the race
+	// detector sees: like the children of a standard context, registering a
+	// function happens before the firing that calls it)
 	after []*afterEntry
+	muIdx int
 }
 
+// afterMu: static, so that no allocation by one goroutine precedes its use by another.
+var afterMu [64]sync.Mutex
+var afterMuNext uint32
+
 type afterEntry struct {
+	c       *DeadlineCtx
 	f       func()
 	stopped bool
 }
 
 // NewCtx creates a context. d == 0: no deadline (cancel only).
 func NewCtx(d time.Duration) *DeadlineCtx {
-	c := &DeadlineCtx{done: make(chan struct{})}
+	c := &DeadlineCtx{done: make(chan struct{}), muIdx: int(atomic.AddUint32(&afterMuNext, 1) % 64)}
 	if d > 0 {
 		c.deadline = time.Now().Add(d)
 		c.hasDL = true
@@ -1434,7 +1445,7 @@ func NewCtx(d time.Duration) *DeadlineCtx {
 // NewCtx creates a cancel-only context from scenario set-up code (kernel side,
 // before any task runs).
 func (k *Kernel) NewCtx() *DeadlineCtx {
-	c := &DeadlineCtx{done: make(chan struct{})}
+	c := &DeadlineCtx{done: make(chan struct{}), muIdx: int(atomic.AddUint32(&afterMuNext, 1) % 64)}
 	k.ctxs = append(k.ctxs, c)
 	return c
 }
@@ -1460,9 +1471,12 @@ func (c *DeadlineCtx) fire(err error) bool {
 	raceOn()
 	// derived standard contexts end now, in the firing task (or the kernel): no
 	// unmanaged goroutine propagates the cancellation
-	for _, e := range c.after {
-		if !e.stopped {
-			e.stopped = true
+	afterMu[c.muIdx].Lock()
+	after := c.after
+	c.after = nil
+	afterMu[c.muIdx].Unlock()
+	for _, e := range after {
+		if e.stop() {
 			e.f()
 		}
 	}
@@ -1473,19 +1487,24 @@ func (c *DeadlineCtx) fire(err error) bool {
 // in a parent it does not know (context.WithCancel(c) would otherwise start a
 // goroutine of its own that waits for c.Done()).
 //
+//
 //go:norace
 func (c *DeadlineCtx) AfterFunc(f func()) (stop func() bool) {
 	if c.state != 0 {
 		f()
 		return func() bool { return false }
 	}
-	e := &afterEntry{f: f}
+	e := &afterEntry{c: c, f: f}
+	afterMu[c.muIdx].Lock()
 	c.after = append(c.after, e)
+	afterMu[c.muIdx].Unlock()
 	return e.stop
 }
 
 //go:norace
 func (e *afterEntry) stop() bool {
+	afterMu[e.c.muIdx].Lock()
+	defer afterMu[e.c.muIdx].Unlock()
 	if e.stopped {
 		return false
 	}
